@@ -1,7 +1,7 @@
 #!/bin/bash
 # usage: try_seed.sh <patch.diff> <check-id> [tier]   — applies a seeded change to /repo, runs the check, reverts.
 # prints DETECTED / MISSED; never leaves /repo modified; evidence files are restored afterwards.
-patch=$1; id=$2; tier=${3:-quick}
+patch=$(readlink -f "$1"); id=$2; tier=${3:-quick}
 cd "$(dirname "$0")/.."
 git -C /repo diff --quiet || { echo "/repo has local changes"; exit 2; }
 cp evidence/$id.json /var/tmp/ev_$id.json 2>/dev/null
